@@ -17,6 +17,9 @@ Sources (job["source"]):
   driver     ANOTHER property's implementation driver run on one of ITS jobs (job["driver"], job["fn"], job["arg"]): every
              package any to_proto call returns while that job runs is captured (h.to_proto, hdl21.netlisting.to_proto,
              hdl21.proto.exporting.to_proto are wrapped), whatever the driver does with it.
+  history    a design (Builder06H: held-name operations md["held"], md["style"], late-built modules design["late"]) and a list of
+             operations on ONE interpreter state - exports, elaborations, netlists, re-targetings of instances (from_history);
+             every package any to_proto returns on the way is captured.
 Only the public API is used; nothing here decides what the right answer is."""
 import common
 from common import main, exc_info
@@ -214,7 +217,113 @@ def from_driver(job):
     return captured
 
 
-SOURCES = dict(design=from_design, example=from_examples, generator=from_generator, pdk=from_pdk, driver=from_driver)
+# ------------------------------------------------------------------------------------------------ held names, histories
+def _connect_all(b, m, mi, x, inst):
+    for port, e in x["conns"]:
+        inst.connect(port, b.expr(m, mi, e))
+
+
+def apply_held(b, mi, md):
+    """md["held"]: what a designer can do to the attributes of a Module through its public interface, in order:
+      ["alias", old, new, "setattr"|"add"]   m.new = m.old  /  m.add(obj, name=new) after clearing the name: ONE object under two keys
+      ["rename", old, new]                     m.old.name = new   (re-named behind the Module's back)
+      ["replace", old]                         m.old = <a new Instance of the same target with the same connections>  (consistent)
+    md["style"] == "classbody": the Module is then made by h.module from a class whose namespace binds the same objects under the
+    same keys (what `inv1 = inv2 = Inv(...)` in a class body gives to the decorator)."""
+    m = b.mods[mi]
+    for op in md.get("held", []):
+        if op[0] == "alias":
+            obj = m.get(op[1])
+            if op[3] == "setattr":
+                setattr(m, op[2], obj)
+            else:
+                obj.name = None
+                m.add(obj, name=op[2])
+        elif op[0] == "rename":
+            m.get(op[1]).name = op[2]
+        elif op[0] == "replace":
+            x = [y for y in md["insts"] if y["name"] == op[1]][0]
+            tgt = b.target(x["of"])
+            inst = h.InstanceArray(of=tgt, n=x["n"]) if x["n"] > 0 else h.Instance(of=tgt)
+            setattr(m, op[1], inst)
+            _connect_all(b, m, mi, x, inst)
+        else:
+            raise ValueError(op)
+    if md.get("style") == "classbody":
+        ns = dict(m.namespace)                      # key -> object, as a class body's namespace holds them
+        cls = type(m.name, (), ns)
+        b.mods[mi] = h.module(cls)
+    return b.mods[mi]
+
+
+class Builder06H(Builder06):
+    """Builder06 + held-name operations + modules that are built only when a history first needs them (design["late"])."""
+
+    def build(self):
+        self.built = set()
+        for md in self.d["mods"]:
+            L = lib(md.get("lib"))
+            self.mods.append(L.module(md["name"]) if L is not None else h.Module(name=md["name"]))
+        late = set(self.d.get("late", []))
+        for mi, md in enumerate(self.d["mods"]):
+            if mi not in late:
+                self.ensure(mi)
+        return self.mods[self.d["top"]]
+
+    def ensure(self, mi):
+        if mi in self.built:
+            return
+        self.built.add(mi)
+        md = self.d["mods"][mi]
+        for x in md["insts"]:
+            if x["of"][0] == "mod":
+                self.ensure(x["of"][1])
+        self.build_module(mi, md)
+        apply_held(self, mi, md)
+
+
+def from_history(job):
+    """job["ops"], in order, on ONE set of objects in ONE interpreter state:
+      ["export", mi] | ["export2", mi, mj] | ["elaborate", mi] | ["netlist", mi, fmt]
+      ["retarget", parent, old, new, which]   inst.of = mods[new] for the which-th (all: None) instance / array of `parent` that refers to mods[old]
+    Every package any to_proto returns on the way is captured; an op that raises is recorded (class only) and the history goes on."""
+    job["_stage"] = "build"
+    b = Builder06H(job["design"])
+    b.build()
+    job["_stage"] = "history"
+    captured, log = [], []
+    with capture(captured):
+        for op in job["ops"]:
+            n0 = len(captured)
+            try:
+                if op[0] == "export":
+                    h.to_proto(b.mods[op[1]])
+                elif op[0] == "export2":
+                    h.to_proto([b.mods[op[1]], b.mods[op[2]]])
+                elif op[0] == "elaborate":
+                    h.elaborate(b.mods[op[1]])
+                elif op[0] == "netlist":
+                    h.netlist(b.mods[op[1]], dest=io.StringIO(), fmt=op[2])
+                elif op[0] == "retarget":
+                    _, parent, old, new, which = op
+                    b.ensure(new)
+                    P = b.mods[parent]
+                    cands = [i for ctr in (P.instances, P.instarrays) for i in ctr.values() if i.of is b.mods[old]]
+                    pick = cands if which is None or not cands else [cands[which % len(cands)]]
+                    for i in pick:
+                        i.of = b.mods[new]
+                    log.append(dict(op=op[0], err=None, moved=len(pick)))
+                    continue
+                else:
+                    raise ValueError(op)
+                log.append(dict(op=op[0], err=None, pkgs=len(captured) - n0))
+            except Exception as e:
+                log.append(dict(op=op[0], err=type(e).__name__, pkgs=len(captured) - n0))
+    job["_log"] = log
+    return captured
+
+
+SOURCES = dict(design=from_design, example=from_examples, generator=from_generator, pdk=from_pdk, driver=from_driver, history=from_history)
 
 
 def do(job):
@@ -226,6 +335,8 @@ def do(job):
         out["stage"] = job.pop("_stage", None)
         return out
     job.pop("_stage", None)
+    if "_log" in job:
+        out["log"] = job.pop("_log")
     if job["source"] == "driver":
         # what the other driver itself reported as its failure, if it caught one (class only)
         res = job.pop("_driver_result", None)
